@@ -74,15 +74,17 @@ func (c *Converter) ConvertString(content string, opts *ConvertOptions) (*docume
 
 // ConvertBytes 转换字节数据为Word文档
 func (c *Converter) ConvertBytes(content []byte, opts *ConvertOptions) (*document.Document, error) {
-	if opts != nil {
-		c.opts = opts
+	// 本次调用的选项只对本次调用生效：不写回转换器，
+	// 否则之后不带选项的调用（其他文档）会沿用这一次的选项
+	if opts == nil {
+		opts = c.opts
 	}
 
 	// 创建新的Word文档
 	doc := document.New()
 
 	// 应用页面设置
-	if c.opts.PageSettings != nil {
+	if opts.PageSettings != nil {
 		// 这里可以后续扩展，使用现有的页面设置API
 	}
 
@@ -93,7 +95,7 @@ func (c *Converter) ConvertBytes(content []byte, opts *ConvertOptions) (*documen
 	// 创建渲染器并转换
 	renderer := &WordRenderer{
 		doc:    doc,
-		opts:   c.opts,
+		opts:   opts,
 		source: content,
 	}
 
@@ -118,7 +120,11 @@ func (c *Converter) ConvertFile(mdPath, docxPath string, options *ConvertOptions
 		options = c.opts
 	}
 	if options.ImageBasePath == "" {
-		options.ImageBasePath = filepath.Dir(mdPath)
+		// 在副本上设置：options 可能是转换器的默认选项或调用方复用的选项，
+		// 写回去会让之后转换的其他文件沿用本文件所在目录解析图片路径
+		local := *options
+		local.ImageBasePath = filepath.Dir(mdPath)
+		options = &local
 	}
 
 	// 转换内容
